@@ -6,10 +6,8 @@ package c16
 import (
 	"encoding/json"
 	"fmt"
-	"os"
 	"regexp"
 	"runtime"
-	"runtime/pprof"
 	"strings"
 	"sync"
 	"sync/atomic"
@@ -60,7 +58,14 @@ func mkLine(cmd string, args []string, sep string) string {
 type checker struct {
 	c        *core.Ctx
 	recorded sync.Map
+	stuck    int64 // lock-held verdicts of this process
+	skipped  int64
 }
+
+// After this many lock-held verdicts in one process the defect is established
+// and the remaining cases of the process are not run (every further stuck
+// case leaves blocked goroutines behind and costs goroutine dumps).
+const stuckLimit = 40
 
 func (k *checker) violation(key, what, stream string, idx int, detail interface{}) {
 	v, _ := k.recorded.LoadOrStore(key, new(int64))
@@ -109,6 +114,10 @@ func trunc(s string, n int) string {
 // every line.
 func (k *checker) runCase(e *env, slot int, stream string, idx int, st *stateKind, lines []string) {
 	c := k.c
+	if atomic.LoadInt64(&k.stuck) >= stuckLimit {
+		atomic.AddInt64(&k.skipped, 1)
+		return
+	}
 	c.Begin(slot, stream, idx, "state: "+st.name+"\n"+strings.Join(lines, "\n"))
 	defer c.End(slot)
 	cs, why := prepare(e, st)
@@ -136,6 +145,7 @@ func (k *checker) runCase(e *env, slot int, stream string, idx int, st *stateKin
 		c.Event("cmd."+word, 1)
 		if cr.stuck {
 			detail["witness"] = cr.witness
+			atomic.AddInt64(&k.stuck, 1)
 			k.violation("lock-held-before:"+word, fmt.Sprintf("HandleInput(%q) cannot acquire the debugger lock and no goroutine can release it", line), stream, idx, detail)
 			abandoned = true
 			break
@@ -183,6 +193,7 @@ func (k *checker) runCase(e *env, slot int, stream string, idx int, st *stateKin
 			k.violation(p.panicKey, fmt.Sprintf("the follow-up status command after %q panicked", line), stream, idx, detail)
 		case p.stuck:
 			detail["witness"] = p.witness
+			atomic.AddInt64(&k.stuck, 1)
 			k.violation("lock-held:"+word, fmt.Sprintf("after %q the follow-up command cannot acquire the debugger lock and no goroutine can release it", line), stream, idx, detail)
 		case !p.returned:
 			detail["dump"] = relevantDump(fullDump())
@@ -295,17 +306,12 @@ func randLine(r *core.Rand, minArgs, maxArgs int) string {
 // Run is the check.
 func Run(c *core.Ctx) {
 	c.Note("rule", fmt.Sprintf("states (%d): fresh; thread running in a heartbeat loop; suspended at top level (breakpoint, breakonstart, last line), inside 1..3 nested calls, on an error (list / map / nested containers with a function as error data); finished (with and without RecordThreadFinished, after a mutex block); after StopThreads. "+
-		"enum-<state>: every command of {%s, unknown, empty} x every argument vector of length <=2 over %d values (valid tid, other tid, 0, -1, 2^63, 1e99, abc, known/unknown source, src:3, src:, :3, src:x, a:b:c, identifier, dotted path, expression, failing expression, empty, garbage bytes, resume/stepin/stepover/stepout/StepOut/true), one fresh state per line; "+
+		"enum-<state>: every command of {%s, unknown, empty} x every argument vector of length <=2 over %d values (valid tid, other tid, 0, -1, 2^63, 1e99, abc, known/unknown source, src:3, src:, :3, src:x, a:b:c, identifier, dotted path, expression, failing expression, empty, garbage bytes, resume/stepin/stepover/stepout/StepOut/true), one fresh state per line (quick tier: length 2 only for cont, describe, extract, inject and the empty command word - the other commands never read a second argument); "+
 		"rand-vec: vectors of length 3..4 (also over %d further values: variables, JSON-ish expressions, odd numbers, unicode spaces), random separators; seq: random command sequences of length <=8 in one state. "+
 		"Oracles after every line: no panic out of HandleInput (core.Guard), json.Marshal of the result succeeds (taken while no debugged thread runs), a follow-up `status` and a write-lock command return - a probe that does not return is decided by the stuck-state predicate (probing goroutine in RWMutex acquisition inside an ecalDebugger method while every other goroutine inside the debugger is blocked), no panic on the debugged thread. "+
 		"non-trivial = distinct (state, command line) whose command word is in the vocabulary and which has at least one argument or whose state holds a thread",
 		len(states), strings.Join(commands[:10], ","), len(argPool), len(extraArgs)))
 	c.Note("exhaustive", "true")
-	if pf := os.Getenv("VH_PPROF"); pf != "" {
-		f, _ := os.Create(pf)
-		pprof.StartCPUProfile(f)
-		defer pprof.StopCPUProfile()
-	}
 	k := &checker{c: c}
 	envs := make([]*env, workers())
 	for i := range envs {
@@ -313,6 +319,9 @@ func Run(c *core.Ctx) {
 	}
 	defer func() {
 		c.Event("goroutines.at-end-of-batch", int64(runtime.NumGoroutine()))
+		if n := atomic.LoadInt64(&k.skipped); n > 0 {
+			c.Inconclusive(fmt.Sprintf("%d cases not run after %d lock-held verdicts in this process", n, stuckLimit), "skipped", 0, nil)
+		}
 		if n := atomic.LoadInt64(&stopThreadsPanics); n > 0 {
 			c.Event("cleanup.StopThreads-panicked(not a command, no verdict)", n)
 		}
@@ -326,13 +335,24 @@ func Run(c *core.Ctx) {
 			c.Nontrivial(core.Hash64(st.name + "|" + line))
 		}
 	}
-	// exhaustive: state x command x vector (<=2)
+	// exhaustive: state x command x vector (<=2). The quick tier enumerates the
+	// vectors of length 2 only for the commands that read a second argument.
 	nv := vecCount()
+	readsSecond := map[string]bool{"cont": true, "describe": true, "extract": true, "inject": true, "": true}
+	var enum [][2]int
+	for ci, cmd := range commands {
+		for v := 0; v < nv; v++ {
+			if c.Quick() && v > len(argPool) && !readsSecond[cmd] {
+				continue
+			}
+			enum = append(enum, [2]int{ci, v})
+		}
+	}
 	for si := range states {
 		st := &states[si]
 		stream := "enum-" + st.name
-		c.Parallel(len(envs), stream, len(commands)*nv, func(slot, idx int) {
-			line := mkLine(commands[idx/nv], vecAt(idx%nv), " ")
+		c.Parallel(len(envs), stream, len(enum), func(slot, idx int) {
+			line := mkLine(commands[enum[idx][0]], vecAt(enum[idx][1]), " ")
 			k.runCase(envs[slot], slot, stream, idx, st, []string{line})
 			nontriv(st, line)
 			if idx%1777 == 5 {
